@@ -415,6 +415,13 @@ def r5(ctx):
     ctx.bulk("score mirror", n, bad, "score order is not mirror-symmetric", sample={"cells": n})
 
 
+@rule("C13.R6", "premise: the king-distance helper used by the endgame evaluation is symmetric under the rank flip (C09.R3 distance re-run)")
+def r_premise(ctx):
+    from analysis.runner import premise
+    premise(ctx, "C09", {'C09.R3'}, "eval_endgame reads chess_lookup::distance, which no longer equals the geometric (mirror-invariant) king distance")
+
+
+
 # ------------------------------------------------------------------ controls
 def _worst_same(P):
     b = P.own("const_bodies", f"<{ENG}Black as {ENG}Policy>::WORST_SCORE")
